@@ -106,6 +106,10 @@ EXPLANATION += (
     ' Round 15: ancestor marker lists are added nearest first (R-PROV/ancestors-nearest-first, rule of C08).'
 )
 
+EXPLANATION += (
+    ' Round 18: ids and rows of a chunk are cut by the same bounds (R-SAMEVAL/ids-rows, rule of C01).'
+)
+
 RULE_TEXT = (
     "one obligation per draw, per block, per indexed comprehension, per "
     "provenance relation, per kernel function x configuration (type and "
@@ -178,6 +182,10 @@ def check(ctx):
     # those of its nearest ancestors first (rule of C08)
     from .C08 import check_ancestors_nearest_first
     check_ancestors_nearest_first(ctx)
+    # the votes recorded under a cell id are the votes on that cell's own
+    # row: ids and rows of a chunk are cut by the same bounds (rule of C01)
+    from .C01 import check_ids_and_rows
+    check_ids_and_rows(ctx)
 
 
 def _draw_ok(fi, expr, nid, depth=0):
